@@ -296,6 +296,8 @@ bool World::applySetField(Bytes& b, int field, int idx, int64_t val)
             size_t off = wire::TECMP_HDR + (h.dtype == wire::TDT_LIN ? 1 : 4);
             if (h.mtype != wire::TMT_DATA)
                 off = wire::TECMP_HDR + 4 + (idx & 1);  // vendor data length of the status payloads
+            if (off >= b.size())
+                return false;
             b[off] = static_cast<uint8_t>(val);
             return true;
         }
